@@ -22,6 +22,7 @@ import (
 	"path/filepath"
 	"strings"
 	"sync"
+	"sync/atomic"
 	"time"
 
 	"golang.org/x/crypto/openpgp"
@@ -239,7 +240,7 @@ func showHashes(v []string) string {
 
 const bodyCap = 64 << 20
 
-func run(line string) string {
+func run1(line string) string {
 	o := hx.Parse(line)
 	data := o.Hex("data")
 	switch o.Cmd {
@@ -546,6 +547,34 @@ func genKrTok(g *hx.Gen) {
 	}
 	g.Stat("krtok")
 	g.Emit("krtok toks=%s", hx.JoinStrs(toks))
+}
+
+// run executes one op under a deadline. A hanging op cannot be killed (its goroutine keeps spinning), so after
+// the first hangs the deadline shrinks, and after many the remaining upper-layer ops are not started at all:
+// the run then ends quickly and the check reports the hangs (observable `hang`) as a VIOLATION with replays.
+var hangs atomic.Int64
+
+func run(line string) string {
+	h := hangs.Load()
+	deadline := 8 * time.Second
+	if h >= 3 {
+		deadline = 500 * time.Millisecond
+	}
+	if h >= 40 {
+		switch strings.SplitN(line, " ", 2)[0] {
+		case "kr", "akr", "msg", "det", "krtok":
+			return "skipped-after-40-hangs"
+		}
+	}
+	ch := make(chan string, 1)
+	go func() { ch <- hx.Catch(func() string { return run1(line) }) }()
+	select {
+	case s := <-ch:
+		return s
+	case <-time.After(deadline):
+		hangs.Add(1)
+		return "hang"
+	}
 }
 
 func firstPartial(b byte) int64 { return int64(1) << (b & 0x1f) }
@@ -1975,6 +2004,17 @@ func genFinding(g *hx.Gen) {
 }
 
 func gen(g *hx.Gen) {
+	// the generator parses its seed keys with the code under test: if that hangs, fail loudly instead of
+	// running into the check's timeout (the check then reports "harness gen crashed" as a VIOLATION)
+	limit := 90 * time.Second
+	if g.Thorough() {
+		limit = 400 * time.Second
+	}
+	wd := time.AfterFunc(limit, func() {
+		fmt.Fprintln(os.Stderr, "C45 gen: exceeded", limit, "- the code under test hangs while the generator parses its seed keys (ReadKeyRing/armor.Decode)")
+		os.Exit(3)
+	})
+	defer wd.Stop()
 	defer func() {
 		for t, total := range tSize {
 			g.StatN(fmt.Sprintf("table.%s=%d/%d", t, len(tHit[t]), total), 1)
@@ -2071,4 +2111,4 @@ func gen(g *hx.Gen) {
 	}
 }
 
-func main() { hx.Main(hx.Harness{Gen: gen, Exec: run, OpTimeout: 30 * time.Second}) }
+func main() { hx.Main(hx.Harness{Gen: gen, Exec: run}) }
